@@ -442,5 +442,7 @@ def run(repo: Repo, tier: str) -> Report:
     from ..rules import r_truthy
     r_truthy(rep, repo, "PixelAlgorithms", "mean_grp", ["nodata"], "0 is a legitimate nodata value (it is the one the test-suite uses); a truth test silently replaces or drops it")
     r_truthy(rep, repo, "RollingWindowAlgos", "sum", ["nodata"], "0 is a legitimate nodata value (it is the one the test-suite uses); a truth test silently replaces or drops it")
+    from ..rules import r_stateless
+    r_stateless(rep, repo, [('PixelAlgorithms', 'mean_grp'), ('RollingWindowAlgos', 'sum')])
     rep.floor("C17 obligations", len(rep.obls), 30)
     return rep
